@@ -92,3 +92,34 @@ func ZZ_C14_ReplicaRepeat() {
 	zzAssert(err == nil, "C14.replica.GetReplica-fails-after-repeated-"+h.name)
 	zzReach("C14.replica.repeat.done")
 }
+
+// two requests in a row: the state the first one leaves behind is the state the
+// second arrives in.  After both: no panic, no lock held, the snapshot chain can still
+// be walked (GetReplica and every I/O-path status query walk it under the replica
+// lock), and a well-formed request is served.
+func ZZ_C14_ReplicaPairs() {
+	states := []string{"open", "closed", "rebuilding"}
+	state := states[zzConcretize(zzChoice("state", zzParam("PAIRSTATES", 1)))]
+	rs, _ := replica.ZZServer(state, 2)
+	s := NewServer(rs)
+	// first request: one that changes the replica's chain, state or mode
+	first := []int{8, 9, 10, 11, 12, 13, 14, 15, 16, 18, 19, 20, 22, 23}
+	h1 := zzHandlers[first[zzConcretize(zzChoice("first", len(first)))]]
+	h2 := zzHandlers[zzConcretize(zzChoice("second", len(zzHandlers)))]
+	zzVarID = "1"
+	for i, h := range []zzHandler{h1, h2} {
+		zzReadMode = zzConcretize(zzChoice("body", 3))
+		zzAction = h.action
+		h.f(s)(&zzRW{}, zzRequest())
+		zzAssert(rs.ZZLockDepth() == 0, "C14.replica.pair.lock-left-held")
+		zzAssert(rs.ZZChainAcyclic(), "C14.replica.pair.snapshot-chain-has-a-cycle-after-"+h1.name+"+"+[]string{"", h2.name}[i])
+		if !rs.ZZChainAcyclic() {
+			return
+		}
+	}
+	zzReadMode = 0
+	err := s.GetReplica(&zzRW{}, zzRequest())
+	zzAssert(err == nil, "C14.replica.pair.GetReplica-fails-after-"+h1.name+"+"+h2.name)
+	zzAssert(rs.ZZLockDepth() == 0, "C14.replica.pair.lock-left-held-after-follow-up")
+	zzReach("C14.replica.pair.done")
+}
